@@ -188,20 +188,88 @@ func (c *Ctx) c19Server(rel, name string) {
 	}
 	okArm := false
 	var selSite string
-	eng.EachInstr(serve, func(in ssa.Instruction) {
-		sel, ok := in.(*ssa.Select)
-		if !ok {
-			return
-		}
+	// "shutdown observed" evidence: the ctx.Done() arm of a select, or the true outcome of a
+	// helper that is such a select returning true on that arm and false on default
+	type doneArm struct {
+		arm  *ssa.BasicBlock
+		site ssa.Instruction
+	}
+	var arms []doneArm
+	isDoneSel := func(sel *ssa.Select) int {
 		for i, st := range sel.States {
-			call, ok := st.Chan.(*ssa.Call)
-			if !ok || !call.Call.IsInvoke() || call.Call.Method.Name() != "Done" {
-				continue
+			if call, ok := st.Chan.(*ssa.Call); ok && call.Call.IsInvoke() && call.Call.Method.Name() == "Done" {
+				return i
+			}
+		}
+		return -1
+	}
+	donePredicate := func(h *ssa.Function) bool {
+		if h == nil || len(h.Blocks) == 0 || h.Signature.Results().Len() != 1 {
+			return false
+		}
+		ok := false
+		eng.EachInstr(h, func(in ssa.Instruction) {
+			sel, isSel := in.(*ssa.Select)
+			if !isSel || sel.Blocking {
+				return
+			}
+			i := isDoneSel(sel)
+			if i < 0 {
+				return
 			}
 			arm := eng.SelectArm(sel, i)
 			if arm == nil {
+				return
+			}
+			// arm returns true, every other return returns false
+			armTrue := eng.BlockReaches(arm, func(x ssa.Instruction) bool {
+				ret, isRet := x.(*ssa.Return)
+				if !isRet {
+					return false
+				}
+				b, isC := eng.ConstBool(ret.Results[0])
+				return !(isC && b)
+			}, nil) == nil
+			othersFalse := true
+			eng.EachInstr(h, func(x ssa.Instruction) {
+				ret, isRet := x.(*ssa.Return)
+				if !isRet || arm.Dominates(ret.Block()) {
+					return
+				}
+				if b, isC := eng.ConstBool(ret.Results[0]); !isC || b {
+					othersFalse = false
+				}
+			})
+			if armTrue && othersFalse {
+				ok = true
+			}
+		})
+		return ok
+	}
+	eng.EachInstr(serve, func(in ssa.Instruction) {
+		if sel, ok := in.(*ssa.Select); ok {
+			if i := isDoneSel(sel); i >= 0 {
+				if arm := eng.SelectArm(sel, i); arm != nil {
+					arms = append(arms, doneArm{arm, in})
+				}
+			}
+		}
+	})
+	for _, b := range serve.Blocks {
+		for k := 0; k < len(b.Succs) && len(b.Succs) == 2; k++ {
+			v, pol, ok := eng.CondTruth(b, k)
+			if !ok || !pol {
 				continue
 			}
+			if call, ok := v.(*ssa.Call); ok && donePredicate(eng.StaticCallee(call.Common())) {
+				arms = append(arms, doneArm{b.Succs[k], call})
+			}
+		}
+	}
+	for _, da := range arms {
+		{
+			arm := da.arm
+			in := da.site
 			selSite = p.InstrPos(in)
 			isNotify := func(x ssa.Instruction) bool {
 				if s, ok := x.(*ssa.Send); ok && eng.SameField(eng.LoadedField(s.Chan), fNotify) {
@@ -223,7 +291,7 @@ func (c *Ctx) c19Server(rel, name string) {
 				okArm = true
 			}
 		}
-	})
+	}
 	r.Check(okArm, "C19/LISTENER", name+":serve", selSite, "accept-error path observes ctx.Done() and returns quietly", "the accept loop has no ctx.Done() arm that returns without notifying: closing the listener at shutdown is reported as a fatal service failure (or the loop spins)")
 }
 
@@ -248,8 +316,10 @@ func (c *Ctx) c19Main() {
 	}
 	var startCall ssa.Instruction
 	eng.EachInstr(mainFn, func(in ssa.Instruction) {
-		if call, ok := in.(*ssa.Call); ok && eng.StaticCallee(call.Common()) == svcStart {
-			startCall = in
+		if call, ok := in.(*ssa.Call); ok {
+			if g := eng.StaticCallee(call.Common()); g == svcStart || g != nil && eng.InModule(g) && p.SyncReach(g)[svcStart] {
+				startCall = in
+			}
 		}
 	})
 	if startCall == nil {
